@@ -9,7 +9,7 @@ from types import TracebackType
 from typing import Any, Final, cast
 
 import aiosqlite
-from cachebox import cached
+from cachebox import cached, postprocess_deepcopy_mutables
 
 from streamflow.core import utils
 from streamflow.core.context import StreamFlowContext
@@ -332,7 +332,9 @@ class SqliteDatabase(CachedDatabase):
             ) as cursor:
                 return await cursor.fetchall()
 
-    @cached(cache=lambda self: self.deployment_cache)
+    @cached(
+        cache=lambda self: self.deployment_cache, postprocess=postprocess_deepcopy_mutables
+    )
     async def get_deployment(self, deployment_id: int) -> MutableMapping[str, Any]:
         async with self.connection as db:
             async with db.execute(
@@ -360,7 +362,9 @@ class SqliteDatabase(CachedDatabase):
             ) as cursor:
                 return await cursor.fetchall()
 
-    @cached(cache=lambda self: self.filter_cache)
+    @cached(
+        cache=lambda self: self.filter_cache, postprocess=postprocess_deepcopy_mutables
+    )
     async def get_filter(self, filter_id: int) -> MutableMapping[str, Any]:
         async with self.connection as db:
             async with db.execute(
@@ -408,7 +412,9 @@ class SqliteDatabase(CachedDatabase):
             ) as cursor:
                 return await cursor.fetchall()
 
-    @cached(cache=lambda self: self.port_cache)
+    @cached(
+        cache=lambda self: self.port_cache, postprocess=postprocess_deepcopy_mutables
+    )
     async def get_port(self, port_id: int) -> MutableMapping[str, Any]:
         async with self.connection as db:
             async with db.execute(
@@ -462,7 +468,9 @@ class SqliteDatabase(CachedDatabase):
                         )
                     return list(result.values())
 
-    @cached(cache=lambda self: self.step_cache)
+    @cached(
+        cache=lambda self: self.step_cache, postprocess=postprocess_deepcopy_mutables
+    )
     async def get_step(self, step_id: int) -> MutableMapping[str, Any]:
         async with self.connection as db:
             async with db.execute(
@@ -470,7 +478,9 @@ class SqliteDatabase(CachedDatabase):
             ) as cursor:
                 return _load_keys(dict(await cursor.fetchone()))
 
-    @cached(cache=lambda self: self.target_cache)
+    @cached(
+        cache=lambda self: self.target_cache, postprocess=postprocess_deepcopy_mutables
+    )
     async def get_target(self, target_id: int) -> MutableMapping[str, Any]:
         async with self.connection as db:
             async with db.execute(
@@ -478,7 +488,9 @@ class SqliteDatabase(CachedDatabase):
             ) as cursor:
                 return _load_keys(dict(await cursor.fetchone()))
 
-    @cached(cache=lambda self: self.token_cache)
+    @cached(
+        cache=lambda self: self.token_cache, postprocess=postprocess_deepcopy_mutables
+    )
     async def get_token(self, token_id: int) -> MutableMapping[str, Any]:
         async with self.connection as db:
             async with db.execute(
